@@ -154,6 +154,23 @@ fn check_pair_inner(c: &PairCase, obs: &mut Obs, strict: bool) -> Result<(), Str
         if !p.matches(&n1) || !p.matches(&n2) {
             return Err(format!("'b-*' must match both {:?} and {:?}", n1, n2));
         }
+        // (and over two candidates whose bases differ in length: 'b*' matches both)
+        let n3 = format!("bcd-{}", b);
+        let p2 = Pattern::new("b*").map_err(|e| e.to_string())?;
+        for (x, vx, y, vy) in [(&n1, a, &n3, b), (&n3, b, &n1, a)] {
+            let got = p2.best_match(x, y);
+            let want = best_match_expect(x, vx, y, vy, Letters::Rank);
+            let ascii = best_match_expect(x, vx, y, vy, Letters::AsciiLower);
+            obs.verdicts += 1;
+            if got == Some(want) {
+                continue;
+            }
+            if want != ascii && got == Some(ascii) && !strict {
+                obs.known_hits.push(KF1);
+                continue;
+            }
+            return Err(format!("best_match('b*', {:?}, {:?}) = {:?}, dewey order says {:?}", x, y, got, want));
+        }
         for (x, vx, y, vy) in [(&n1, a, &n2, b), (&n2, b, &n1, a)] {
             let got = p.best_match(x, y);
             let want = best_match_expect(x, vx, y, vy, Letters::Rank);
